@@ -37,6 +37,7 @@ type FSPlan struct {
 	Inject string `json:"inject,omitempty"` // "" | "eacces" | "enospc" | "eio"
 	At     int    `json:"at,omitempty"`     // which intercepted call (1-based) gets the fault
 	Part   int    `json:"part,omitempty"`   // bytes that land before enospc/eio (percent of size)
+	RO     bool   `json:"ro,omitempty"`     // an existing target is read-only (mode 0444)
 }
 
 // Op is one step of a File history.
@@ -59,8 +60,10 @@ type Op struct {
 //   noformat   I               f.NoFormat = I!=0
 //   pkgcomment S / header S / canonical S / cgo S (f.CgoPreamble)
 //   add        Node            f.Add(build(Node))
+//   fill       I, Node         the statement built by the node {k:"placeholder", i:I} gets build(Node) appended (it was empty, i.e. null, until now)
 //   add_to_group I, Node       group[I].Add(build(Node))   (a later addition inside a captured function/case body)
 //   addfrag    I               f.Add(fragment I)   (shares the fragment's Code value with the File)
+//   gostring                   f.GoString()  (what fmt's %#v prints; panics on error)
 //   render     W               f.Render(w)
 //   save       F               f.Save(target)
 //   render_frag I, W           frag[I].RenderWithFile(w, f)
